@@ -1,9 +1,9 @@
 package main
 
 import (
-	"regexp"
 	"os"
 	"path/filepath"
+	"regexp"
 	"sort"
 	"strings"
 
@@ -172,13 +172,13 @@ func normAttrs(a []string) []string {
 
 // reviewed, intended differences between the fork and x/net v0.34.0
 var forkSkips = map[string]string{
-	"(*http2.serverConn).processFrame": "the fork's fingerprint capture hooks live here (decided by C03/C06/C07 rules and the C13 tables instead)",
-	"(*http2.ClientConn).closeIfIdle":         "the fork predates upstream's closedOnIdle fix (golang/go#70515) in the client transport, which the proxy does not use",
-	"(*http2.ClientConn).idleStateLocked":     "same upstream transport fix (closedOnIdle)",
-	"(*http2.clientConnReadLoop).cleanup":     "same upstream transport fix (closedOnIdle / idleTimeout-bounded unusedWaitTime)",
-	"(*http2.clientConnReadLoop).processWindowUpdate": "fix 9fd42ae (finding D7): the overflow edge calls endStreamErrorLocked instead of re-locking cc.mu through endStreamError, as x/net does from v0.36 on; its decisions are pinned by the h2_flow_transport table instead",
+	"(*http2.serverConn).processFrame":                 "the fork's fingerprint capture hooks live here (decided by C03/C06/C07 rules and the C13 tables instead)",
+	"(*http2.ClientConn).closeIfIdle":                  "the fork predates upstream's closedOnIdle fix (golang/go#70515) in the client transport, which the proxy does not use",
+	"(*http2.ClientConn).idleStateLocked":              "same upstream transport fix (closedOnIdle)",
+	"(*http2.clientConnReadLoop).cleanup":              "same upstream transport fix (closedOnIdle / idleTimeout-bounded unusedWaitTime)",
+	"(*http2.clientConnReadLoop).processWindowUpdate":  "fix 9fd42ae (finding D7): the overflow edge calls endStreamErrorLocked instead of re-locking cc.mu through endStreamError, as x/net does from v0.36 on; its decisions are pinned by the h2_flow_transport table instead",
 	"(*http2.clientConnReadLoop).endStreamErrorLocked": "added by fix 9fd42ae (finding D7); not in x/net v0.34.0",
-	"http2.init":                              "package initialiser (synthetic and declared init share the name); package-level tables are compared by value instead",
+	"http2.init": "package initialiser (synthetic and declared init share the name); package-level tables are compared by value instead",
 }
 
 // Which functions of the vendored HTTP/2 code bear on which property (regular expressions over rendered function names).
